@@ -30,6 +30,20 @@ func same(name string) func(map[string]int) int {
 
 type B = map[string]int
 
+// numLayouts mirrors kit.Layouts: record-count vectors with <= segs segments of
+// <= recs records, non-head segments non-empty.
+func numLayouts(b map[string]int) int {
+	var count func(left int) int
+	count = func(left int) int {
+		n := b["recs"] + 1
+		if left > 1 {
+			n += b["recs"] * count(left-1)
+		}
+		return n
+	}
+	return count(b["segs"])
+}
+
 var globalAssumptions = []string{
 	"amd64 (int = 64 bit); all integer arithmetic is encoded as wrapping bit-vector arithmetic",
 	"claims hold within the stated bounds only (see coverage.harnesses[*].bounds); larger inputs are outside the claim",
@@ -56,8 +70,17 @@ func init() {
 	minOff := HarnessRun{Name: "h_index.MinOffsetOrder", Quick: B{"mapsize": 4, "map_orders": 4}, Thorough: B{"mapsize": 5, "map_orders": 5},
 		Split: []SplitDim{{"n", plus1("mapsize")}}}
 
-	addProp(&Prop{ID: "C03", DesignRef: "DESIGN.md §4 C03", Runs: []HarnessRun{idxConsume, segConsume}})
-	addProp(&Prop{ID: "C04", DesignRef: "DESIGN.md §4 C04", Runs: []HarnessRun{idxGet, segGet}})
+	layoutSplit := []SplitDim{{"layout", numLayouts}, {"ver", same("vers")}, {"prof", same("profs")}}
+	dirQ := B{"segs": 2, "recs": 2, "vers": 3, "profs": 2}
+	dirT := B{"segs": 3, "recs": 2, "vers": 4, "profs": 3}
+	qConsume := HarnessRun{Name: "h_log.QueryConsume", Quick: dirQ, Thorough: dirT, Split: layoutSplit,
+		Reach: []string{"newest", "beyond-next", "non-empty", "empty-result", "empty-head-with-older-segments", "single-empty-segment", "multi-segment"}}
+	cursor := HarnessRun{Name: "h_log.Cursor", Quick: dirQ, Thorough: dirT, Split: layoutSplit, Reach: []string{"cursor-done"}}
+	qGet := HarnessRun{Name: "h_log.QueryGet", Quick: dirQ, Thorough: dirT, Split: layoutSplit,
+		Reach: []string{"oldest", "newest", "unassigned", "live", "deleted", "relative-empty"}}
+
+	addProp(&Prop{ID: "C03", DesignRef: "DESIGN.md §4 C03", Runs: []HarnessRun{idxConsume, segConsume, qConsume, cursor}})
+	addProp(&Prop{ID: "C04", DesignRef: "DESIGN.md §4 C04", Runs: []HarnessRun{idxGet, segGet, qGet}})
 	addProp(&Prop{ID: "C10", DesignRef: "DESIGN.md §4 C10", Runs: []HarnessRun{idxTime}})
 	addProp(&Prop{ID: "C12", DesignRef: "DESIGN.md §4 C12", Runs: []HarnessRun{minOff}})
 }
